@@ -29,23 +29,23 @@ ASSUMPTIONS = ["the modules read the clock only through the module-global `time`
 
 def bounds(tier):
     q = tier == "quick"
-    return {"complete greedy": f"values 0..{4 if q else 5}, 1..{5 if q else 6} items, 1..{3 if q else 4} bins, 3 objectives x 16 switch combinations, every cut",
-            "cbldm": f"values 0..{5 if q else 6}, 1..{6 if q else 7} items, bounds {{1,2,default}}, every cut",
+    return {"complete greedy": f"values 0..{4 if q else 5}, 1..{5 if q else 7} items, 1..{3 if q else 4} bins, 3 objectives x 16 switch combinations, every cut",
+            "cbldm": f"values 0..{5 if q else 7}, 1..{6 if q else 8} items, bounds {{1,2,default}}, every cut",
             "complete greedy, named": f"values 0..4, 2..{4 if q else 5} items given by name (names anti-correlated with values), 2..3 bins, 3 objectives x {{all switches on, all off}}, every cut",
             "complete greedy, offsets": f"letters {{b/2+7, b+1, b+5, b+6, 2b+1, 2b+8}}, b in {{1e5" + ("" if q else ", 1e6, 2**24, 1e9") + f"}}, 3..5 items, 2..3 bins, every cut",
             "cbldm, offsets and spread": f"offset letters (4 bases) 3..{5 if q else 6} items; values {{0,1,2,4,5,10,14}} 3..{5 if q else 6} items",
             "before the cuts": "an interrupted call (cut 0) followed by an unlimited call: the latter must be valid and optimal",
             "after the cuts": "an unlimited run in the same process must reproduce the first unlimited result",
             "ckk generator, dominant item": f"every multiset of 4..{5 if q else 6} values from 1..{4 if q else 5} plus one item worth their total -1/+0/+1/+3, k=3..4, every yield prefix",
-            "ckk generator": f"values 0..{5 if q else 6}, 1..{6 if q else 7} items, k=2..4, every yield prefix"}
+            "ckk generator": f"values 0..{5 if q else 7}, 1..{6 if q else 8} items, k=2..4, every yield prefix"}
 
 
 def tasks(tier):
     q = tier == "quick"
     ts = []
-    for ch in scopes.chunk_multisets(range(0, 5 if q else 6), 1, 5 if q else 6, 8):
+    for ch in scopes.chunk_multisets(range(0, 5 if q else 6), 1, 5 if q else 7, 8):
         ts.append(("cg", ch, tuple(range(1, (3 if q else 4) + 1))))
-    for ch in scopes.chunk_multisets(range(0, 6 if q else 7), 1, 6 if q else 7, 40):
+    for ch in scopes.chunk_multisets(range(0, 6 if q else 8), 1, 6 if q else 8, 40):
         ts.append(("cbldm", ch, None))
         ts.append(("ckkgen", ch, (2, 3, 4)))
     # a dominant item (about as large as all the others together) over every small remainder: for three and more bins the
